@@ -368,6 +368,9 @@ pub fn base_states() -> Vec<(&'static str, Vec<Step>)> {
             ],
         ),
         ("alias_map_near_rehash", many_aliases),
+        // twelve separate one-value node inserts, replayed live (never closed, so the file keeps its free regions):
+        // value collections grow in place over freed regions of exactly their growth
+        ("live_many_small_values", (0..12).map(|i| Q(q::nodes_values(vec![vec![kv(K, i as i64)]]))).collect()),
         (
             "three_indexes",
             vec![
